@@ -573,6 +573,12 @@ def run(ctx):
     guided = set()      # ids of the model-guided permission histories
     marksd = set()      # ids of the marks histories (gen_marks_c08d)
     replay_ins = None
+    if ctx.replay and json.load(open(ctx.replay))["replay"].get("part") == "kinds":
+        # a replay of the p2p part
+        from props import c08kinds as c08k
+        ctx.coverage["p2p_part"] = c08k.replay_part(ctx, json.load(open(ctx.replay))["replay"])
+        ctx.coverage.setdefault("trusted_base", [])
+        finish(ctx)
     if ctx.replay and json.load(open(ctx.replay))["replay"].get("part") == "desc":
         # a replay of the description/tags part
         from props import c08desc as c08d
@@ -850,6 +856,12 @@ def run(ctx):
     if c08desc is not None and not ctx.replay:
         desc_cov = c08desc.run_part(ctx)
 
+    # ---- third part: p2p topics (offline / live {set sub}, name forms, reload)
+    kinds_cov = None
+    if not ctx.replay:
+        from props import c08kinds
+        kinds_cov = c08kinds.run_part(ctx)
+
     # ---- coverage
     nt = set()
     kinds_c, codes, faults_seen = {}, {}, {}
@@ -896,6 +908,8 @@ def run(ctx):
     })
     if desc_cov:
         ctx.coverage["desc_part"] = desc_cov
+    if kinds_cov:
+        ctx.coverage["p2p_part"] = kinds_cov
     # ---- branch distribution of the permission requests (labels by the extracted classifier perm_branch_c08c on the
     # model's state; model and implementation agree on every reply, stored row and cached mode of these histories
     # unless a correspondence mismatch is reported above)
